@@ -16,7 +16,7 @@ from __future__ import annotations
 
 import ast
 
-from ..astx import attr_writes, call_name, expand, kwarg, last
+from ..astx import dep_slice, attr_writes, call_name, expand, kwarg, last
 from ..index import AnchorError, enclosing_function
 from ..selftest import Twin
 from ._engine import CL, STATE, wf_modules
@@ -117,7 +117,10 @@ def run(chk) -> None:
             continue
         if f not in readw:
             continue
-        ok = f in sw and kwarg(wcall[0], f) is not None and f".{f}" in ast.unparse(kwarg(wcall[0], f)) and kwarg(rcall[0], f) is not None and f".{f}" in ast.unparse(expand(kwarg(rcall[0], f), rcall[0], depth=1))
+        def _flows(call_, fnx_):
+            v_ = kwarg(call_, f)
+            return v_ is not None and any(a_.endswith(f".{f}") or f".{f}." in a_ for a_ in dep_slice(fnx_, v_).attrs())
+        ok = f in sw and _flows(wcall[0], to_s) and _flows(rcall[0], from_s)
         chk.ob("C12.R1", f"waiter field `{f}` is serialized and restored (the engine reads it)", ok, m=ms, node=wcall[0], fn=to_s, instance=f"waiter-field:{f}",
                reason=f"`{f}` has no serialized counterpart: after a resume the waiter is back in its default state for this field")
     # broker-level fields
@@ -127,8 +130,22 @@ def run(chk) -> None:
     ok = any(isinstance(s, ast.Assign) and ast.unparse(s.targets[0]).endswith(".is_running") and "is_running" in ast.unparse(s.value) for s in ast.walk(from_s))
     chk.ob("C12.R1", "is_running is restored", ok, m=ms, node=from_s, fn=from_s, instance="broker-field:is_running:read", reason="is_running not restored")
     for role, fnx, marker in (("written", to_s, "collected_events"), ("restored", from_s, "collected_events")):
-        ok = any(isinstance(n, ast.DictComp) and marker in ast.unparse(n) and ("serialize" in ast.unparse(n)) for n in ast.walk(fnx))
-        chk.ob("C12.R1", f"collected event buffers are {role} per buffer id", ok, m=ms, node=fnx, fn=fnx, instance=f"broker-field:collected_events:{role}", reason="no dict comprehension over collected_events")
+        ok = False
+        for n in ast.walk(fnx):
+            # {k: [ser(e) for e in v] for k, v in ….collected_events.items()}   or the same as a loop storing into d[k]
+            gens = n.generators[:1] if isinstance(n, ast.DictComp) else ([n] if isinstance(n, ast.For) else [])
+            for g in gens:
+                if not (f"{marker}.items()" in ast.unparse(g.iter) and isinstance(g.target, ast.Tuple) and len(g.target.elts) == 2 and all(isinstance(e_, ast.Name) for e_ in g.target.elts)):
+                    continue
+                kname, vname = g.target.elts[0].id, g.target.elts[1].id
+                if isinstance(n, ast.DictComp):
+                    pairs = [(n.key, n.value)]
+                else:
+                    pairs = [(s_.targets[0].slice, s_.value) for s_ in ast.walk(n) if isinstance(s_, ast.Assign) and len(s_.targets) == 1 and isinstance(s_.targets[0], ast.Subscript)]
+                for k_, v_ in pairs:
+                    if isinstance(k_, ast.Name) and k_.id == kname and "serialize" in ast.unparse(v_) and any(isinstance(x_, ast.Name) and x_.id == vname for x_ in ast.walk(v_)):
+                        ok = True
+        chk.ob("C12.R1", f"collected event buffers are {role} per buffer id", ok, m=ms, node=fnx, fn=fnx, instance=f"broker-field:collected_events:{role}", reason="no per-buffer-id (de)serialization of collected_events (dict comprehension or keyed loop)")
 
     # ---------------------------------------------------------------- R2 one-trip normal form
     grows = [(n, k) for n, k in attr_writes(from_s, "in_progress") if k not in ("mutcall:clear",)]
